@@ -14,7 +14,7 @@ from apicodec import Big, Sl, enc, dec, canon, show, outcome
 
 PID = 'C13'
 TYPES = ['list', 'tuple', 'str', 'stru', 'bytes', 'range', 'range3', 'rangeneg']
-USTR = 'a\u00e9\u20ac\U0001f600bc'
+USTR = 'a\u00e9\u20ac\U0001f600\ufffdc'      # U+FFFD is a real character; its UTF-8 decoding equals the decoder's error value
 
 # (type family, operation family) that gpython does not implement at all today (TypeError on the most trivial instance).
 # A missing feature is not a C13 violation; each is re-probed on every run and tested normally as soon as it exists.
